@@ -47,6 +47,17 @@ Res(s, comps) == Resolve(s, comps, Len(comps.k) + 1)
 (* "references resolve within the component map supplied by the caller" *)
 RefsResolve(S, comps) ==
    \A s \in AllS(S, comps) : ~Has(s, "refraw") /\ (Has(s, "ref") => ~Has(Res(s, comps), "ref"))
+(* the names that do not resolve *)
+MissingNames(S, comps) ==
+   {Res(s, comps).ref : s \in {x \in AllS(S, comps) : Has(x, "ref") /\ Has(Res(x, comps), "ref")}}
+(* the name a caller-supplied type-name generator of the tng option sets gives a declared type *)
+UsesTypeNameGen(opt) == opt \in {"tng", "tng_export", "tng_exporttop"}
+TypeNameOf(opt, n) == IF UsesTypeNameGen(opt) THEN "T_" \o n ELSE n
+(* every component and every reference goes by a name the caller's generator chose *)
+RefNamesOf(S, comps) == {s.ref : s \in {x \in AllS(S, comps) : Has(x, "ref")}}
+NamesChosen(T, opt, S, comps) ==
+   LET chosen == {TypeNameOf(opt, n) : n \in ReachNames(T)} IN
+   RefNamesOf(S, comps) \subseteq chosen /\ Range(comps.k) \subseteq chosen
 (* component names are distinct *)
 CompsWellFormed(comps) ==
    /\ Len(comps.k) = Len(comps.v)
